@@ -55,6 +55,10 @@ CHECKS["C01"] = dict(engine="E1", level="exploration", technique="deterministic 
    text="Seeded histories of 5-60 namespace calls by the administrator on MemFS or OrefaFS, operands drawn by class from the current tree (existing file/directory/symlink, missing, missing parent, below a regular file, the root; second operand anywhere, incl. ancestor/descendant/same; names that are prefixes of each other), executed in lockstep through osfs.OsFS inside a helper process chrooted into a private tmpfs directory: same errno class and data call by call, identical trees (names, types, permission bits, owners, sizes, contents, link counts, SameFile classes, link targets) after every call. A twin mode checks unclean paths against their Clean() form. Nine recorded families of known findings; 90% of the runs steer clear of their operand classes. Sampling, not proof.",
    note="reference = Go os package on this kernel's tmpfs as root in a chroot; mtimes, directory sizes/link counts not compared; symlink targets generated clean; OrefaFS owners not compared (no identity manager advertised)", ref="3/C01")
 
+CHECKS["C04"] = dict(engine="E1", level="exploration", technique="deterministic lockstep simulation against the real kernel with a symbolic-link-heavy profile",
+   text="MemFS trees built by seeded Mkdir/WriteFile/Symlink histories with targets of every shape (sibling, ../x, ../../x, absolute, self, 2- and 3-cycles, chains of 2-45 links on both sides of the kernel's limit of 40, dangling, below a regular file), links re-targeted mid-history, then 10-40 calls (Stat, Lstat, Open, ReadFile, ReadDir, Chmod, Truncate, Mkdir/WriteFile below, EvalSymlinks, Readlink, Remove, Rename, Lchown, Link) on paths of 1-4 components through those names, each executed in lockstep on the real kernel inside the chrooted helper (filepath.EvalSymlinks for EvalSymlinks): same errno class, same data, same tree after every call. Sampling, not proof.",
+   note="reference = Go os/filepath on this kernel's tmpfs in a chroot (absolute targets and '..' at the root mean the same on both sides); EvalSymlinks compared on chains of at most 30 links (filepath.EvalSymlinks has its own limit of 255)", ref="3/C04")
+
 NA = {
  "C13": "Clean, Join, Split, Dir, Base, IsAbs, Rel, Abs, FromSlash, ToSlash, VolumeName, Match and PathIterator are pure functions of their string arguments and the OS-type constant: there is no schedule, clock, I/O, fault or shared state for a simulator to control; generating strings is input fuzzing, a different technique (DESIGN.md section 4).",
 }
